@@ -43,7 +43,7 @@ class MotorLaw(HarnessBase):
         self.units = tuple(units)
         self.twin = twin
         self.name = 'motor_law:%s:%s%s%s%s' % ('currents' if currents else 'nocurrents', '/'.join(self.units),
-                                               ':odd' if twin else '', ('' if sym_consts else ':state') + (':second_eval' if second_eval else ''), tag)
+                                               ':odd' if twin else '', ('' if sym_consts else ':state') + (':second_eval_%s' % second_eval if second_eval else ''), tag)
 
     def describe(self):
         return dict(currents=self.currents, units=dict(zip(('Tmax', 'w0', 'i0', 'imax', 'w'), self.units)), twin=self.twin)
@@ -64,13 +64,22 @@ class MotorLaw(HarnessBase):
 
     def _eval(self, env, gu, P, w, D):
         m = self._motor(env, gu, P)
-        if getattr(self, 'second_eval', False):
-            # the same motor object was first evaluated in another (concrete) state: the laws must be memoryless
-            m.pwm = -0.625
+        se = getattr(self, 'second_eval', False)
+        if se:
+            # the same motor object was first evaluated in another state: the laws must be memoryless.
+            # se == 'inplace': first evaluation at the SAME duty cycle, then every motor constant (the user's own quantity
+            # objects) is converted in place to another unit - physically nothing changed
+            m.pwm = D if se == 'inplace' else -0.625
             m.angular_speed = gu.AngularSpeed(-37.5, 'rad/s')
             m.compute_torque()
             if self.currents:
                 m.compute_electric_current()
+            if se == 'inplace':
+                m.maximum_torque.to('kgfcm' if m.maximum_torque.unit != 'kgfcm' else 'mNm', inplace=True)
+                m.no_load_speed.to('rpm' if m.no_load_speed.unit != 'rpm' else 'deg/s', inplace=True)
+                if self.currents:
+                    m.no_load_electric_current.to('mA' if m.no_load_electric_current.unit != 'mA' else 'uA', inplace=True)
+                    m.maximum_electric_current.to('uA' if m.maximum_electric_current.unit != 'uA' else 'mA', inplace=True)
         m.pwm = D
         m.angular_speed = _q(gu, 'AngularSpeed', w, self.units[4], 'rad/s')
         m.compute_torque()
@@ -152,7 +161,9 @@ def specs(tier, seed):
     rnd = random.Random(seed)
     SIU = ('Nm', 'rad/s', 'A', 'A', 'rad/s')
     S = [('law', True, SIU, False, True), ('law', False, SIU, False, True), ('law', True, SIU, True, True),
-         ('law', True, SIU, False, True, True), ('law', False, SIU, False, True, True)]
+         ('law', True, SIU, False, True, True), ('law', False, SIU, False, True, True),
+         ('law', True, SIU, False, False, 'inplace'), ('law', False, SIU, False, False, 'inplace'),
+         ('law', True, ('mNm', 'rps', 'mA', 'A', 'rad/s'), False, False, 'inplace')]
     # non-SI units: exactness is lost to the unit factors, so (linearity discipline) the constants are concrete
     # and the speed and the duty cycle stay symbolic
     n = 8 if tier == 'quick' else 40
@@ -185,7 +196,7 @@ REQUIRED_TRIGGERS = {'quick': ('law.torque', 'law.current', 'law.dead_zone_zero_
 BOUNDS = {
     'quick': 'R mode: Tmax, w0, i0, imax (0<=i0<imax), speed (any sign, beyond no-load speed too) and duty cycle in [-1,1] '
              'all symbolic; SI units + 8 seeded unit assignments of the five quantities; odd symmetry by a twin evaluation '
-             'at (-D,-w); each law also evaluated on a motor object that was evaluated in another state before. FP mode: the same methods on IEEE-754 double proxies, all finite doubles with magnitudes in '
+             'at (-D,-w); each law also evaluated on a motor object that was evaluated before (in another state; or at the same duty cycle followed by an in-place unit conversion of every motor constant). FP mode: the same methods on IEEE-754 double proxies, all finite doubles with magnitudes in '
              '[1e-6,1e6], 60 s per query',
     'thorough': 'R mode: 40 seeded unit assignments + every torque and speed unit once; FP mode: 240 s per query',
 }
